@@ -883,7 +883,7 @@ func main() {
 	cov["distinct_nontrivial"] = nontrivial
 	cov["distinct_outcomes"] = outcomes.Distinct()
 	cov["outcomes"] = outcomes.Keys()
-	cov["rule"] = "(a) the cross product of per-type argument domains for 19 registered Funcs, including Funcs with repeated parameter types (int, string, float64, []int, map, struct, *struct, interface{}, user interface, bigslice.Slice, *exec.Result; zero values, typed/untyped nil, interfaces holding each registered concrete type, results and nested results), x machine combiners off/on: one evaluation per real decode and per worker view (in-process, child process); (b) one evaluation per cluster run of an unencodable argument list (designed kinds + one representative of every class the codec rejected in (a)) x {1,2} machines; (c) one evaluation per ordered pair of lists; (d) one evaluation per end-to-end cluster run of an invocation whose Result arguments form a DAG (10 shapes x clusters growing to 1,2,3,6 machines x rounds), the last invocation placed on freshly started machines; (e) the same cells with one transient network error on the k-th Worker.Compile RPC; (f) one evaluation per query/registration word (fresh process each). distinct_nontrivial = (f) words + (d) runs in which the last invocation was compiled on a machine that had compiled none of its dependencies + (e) cells in which the injected fault fired + distinct argument lists (by Func and canonical description) that were transported and verified on a worker + cluster runs in which the encode failure actually occurred + pairs with a non-empty diff"
+	cov["rule"] = "(a) the cross product of per-type argument domains for 21 registered Funcs, including Funcs with repeated parameter types (int, string, float64, []int, map, struct, *struct, interface{}, user interface, user interfaces that *exec.Result implements, bigslice.Slice, *exec.Result; zero values, typed/untyped nil, interfaces holding each registered concrete type, results and nested results), x machine combiners off/on: one evaluation per real decode and per worker view (in-process, child process); (b) one evaluation per cluster run of an unencodable argument list (designed kinds + one representative of every class the codec rejected in (a)) x {1,2} machines; (c) one evaluation per ordered pair of lists; (d) one evaluation per end-to-end cluster run of an invocation whose Result arguments form a DAG (10 shapes x clusters growing to 1,2,3,6 machines x rounds), the last invocation placed on freshly started machines; (e) the same cells with one transient network error on the k-th Worker.Compile RPC; (f) one evaluation per query/registration word (fresh process each). distinct_nontrivial = (f) words + (d) runs in which the last invocation was compiled on a machine that had compiled none of its dependencies + (e) cells in which the injected fault fired + distinct argument lists (by Func and canonical description) that were transported and verified on a worker + cluster runs in which the encode failure actually occurred + pairs with a non-empty diff"
 	r.Finish(cov)
 }
 
